@@ -1,16 +1,18 @@
 #!/bin/bash
 # usage: tools/seed_eval.sh <seed dir under /verif/seeded> <property> [more properties]
-# applies seeded/<id>/patch.diff to /repo, runs the checks, and restores /repo.
+# Runs the checks against a seeded change. The change is applied in a scratch worktree of /repo's HEAD
+# (never in /repo itself) and the checks are pointed at it with --repo; no evidence file is written.
 set -u
 SEED=$1; shift
+W=/tmp/se-$SEED
 cd /verif
-if ! git -C /repo diff --quiet; then echo "/repo is dirty; refusing"; exit 3; fi
-git -C /repo apply /verif/seeded/$SEED/patch.diff || { echo "patch does not apply"; exit 3; }
+git -C /repo worktree remove --force $W 2>/dev/null
+git -C /repo worktree add --detach $W HEAD >/dev/null 2>&1 || { echo "cannot create worktree"; exit 3; }
+git -C $W apply /verif/seeded/$SEED/patch.diff || { echo "patch does not apply"; git -C /repo worktree remove --force $W; exit 3; }
 for P in "$@"; do
   echo "=== check $P against seed $SEED"
-  ./check $P --no-evidence > /tmp/seed_eval_${SEED}_${P}.log 2>&1; rc=$?
+  ./check $P --repo $W --no-evidence > /tmp/seed_eval_${SEED}_${P}.log 2>&1; rc=$?
   grep -E "^(FAILED-OBLIGATION|VIOLATION|UNDECIDED|KNOWN-FINDING|C[0-9]+ )" /tmp/seed_eval_${SEED}_${P}.log | cut -c1-400
   echo "exit=$rc"
 done
-git -C /repo checkout -- .
-git -C /repo status --short
+git -C /repo worktree remove --force $W
